@@ -40,7 +40,7 @@ def canon_plan(w, phys, outnode):
         if not r:
             raise AssertionError("barrier without read successor")
         name[id(b)] = name[id(r[0])] + 1
-    kid = {}
+    kid = w.__dict__.setdefault("_kwname_ids", {})       # keyword names -> ids, shared with model_input
 
     def key(k):
         if type(k) is PositionalArg:
@@ -60,8 +60,9 @@ def model_input(w):
     index = {id(nd): i for i, nd in enumerate(w.nodes)}
     ns = [(index[id(nd)], type(nd) is Literal) for nd in g.nodes()]
     es = []
+    kid = w.__dict__.setdefault("_kwname_ids", {})
     for u, v, k in g.edges(keys=True):
-        kk = (0, k.index, 0) if type(k) is PositionalArg else (1, 0, k.index) if type(k) is KeywordArg else (2, 0, 0)
+        kk = (0, k.index, 0) if type(k) is PositionalArg else (1, kid.setdefault(k.name, len(kid)), k.index) if type(k) is KeywordArg else (2, 0, 0)
         es.append((index[id(u)], index[id(v)], kk))
     entries = [(index[id(node)], rv.is_source, index[id(node)] in w._stale_now) for node, rv in w.reg.mapping.items()]
     return ns, es, len(w.nodes), entries
